@@ -23,7 +23,7 @@ def one(name):
         c = subprocess.run(['python3-vt', 'checks/check.py', prop, '--tier', 'quick'], cwd=ROOT, env=dict(os.environ, PJPLAN_SRC=os.path.join(w, 'src')), capture_output=True, text=True)
         lines = [l for l in c.stdout.splitlines() if l.startswith(('VIOLATION', 'UNDECIDED'))]
         viol = [l for l in lines if l.startswith('VIOLATION')]
-        ded = [l for l in viol if re.search(r'replay=replays/C\d\d/[A-Za-z_]+\.[A-Za-z_.]+\.(ens|exc|inv|req|safe|lemma|dec|cover)', l)]
+        ded = [l for l in viol if re.search(r'replay=replays/C\d\d/[^ ]*?\.(ens|exc|inv-|req_|req@|safe|lemma|dec|cover)', l)]
         confirmed = ('84 passed' in t) and clean == 0 and patched != 0
         notes = open(os.path.join(d, 'notes.md')).read() if os.path.exists(os.path.join(d, 'notes.md')) else ''
         out = os.path.join(ROOT, 'seeded', name); os.makedirs(out, exist_ok=True)
